@@ -54,6 +54,7 @@ func mapOrderRule(c *Ctx, ds []*declInfo) {
 
 func mapOrderLoop(c *Ctx, R string, d *declInfo, rs *ast.RangeStmt) {
 	subj := d.name + "/" + rangeSubject(d, rs)
+	mapOrderCarriedState(c, R, d, rs, subj)
 	keyObj := objOf(d.pkg, rs.Key)
 	valObj := types.Object(nil)
 	if rs.Value != nil {
@@ -452,4 +453,86 @@ func emptinessTest(c *Ctx, e ast.Expr) (subject string, empty bool, ok bool) {
 		return subject, false, true
 	}
 	return "", false, false
+}
+
+
+// mapOrderCarriedState: inside a range over a map, a decision (condition of an if, a skip) that
+// looks a key up in a set which the same loop body fills under a *different* key depends on which
+// entries were visited before — on the iteration order. (Testing and inserting the same key is
+// de-duplication: the result is the same set whatever the order.)
+func mapOrderCarriedState(c *Ctx, R string, d *declInfo, rs *ast.RangeStmt, subj string) {
+	type ins struct {
+		m   types.Object
+		key string
+	}
+	var inserts []ins
+	ast.Inspect(rs.Body, func(n ast.Node) bool {
+		if _, isLit := n.(*ast.FuncLit); isLit {
+			return false
+		}
+		as, ok := n.(*ast.AssignStmt)
+		if !ok {
+			return true
+		}
+		for _, l := range as.Lhs {
+			ix, isIx := l.(*ast.IndexExpr)
+			if !isIx {
+				continue
+			}
+			if mt := d.pkg.TypesInfo.TypeOf(ix.X); mt != nil {
+				if _, isMap := mt.Underlying().(*types.Map); isMap {
+					if o := baseObj(d, ix.X); o != nil {
+						inserts = append(inserts, ins{o, normText(exprText(c.P.Fset, ix.Index))})
+					}
+				}
+			}
+		}
+		return true
+	})
+	if len(inserts) == 0 {
+		return
+	}
+	lookups := map[types.Object]*ast.IndexExpr{}
+	ast.Inspect(rs.Body, func(n ast.Node) bool {
+		if st, ok := n.(ast.Stmt); ok {
+			if o, ix := commaOkLookup(d, st); o != nil {
+				lookups[o] = ix
+			}
+		}
+		return true
+	})
+	bad := ""
+	var pos token.Pos
+	ast.Inspect(rs.Body, func(n ast.Node) bool {
+		ifs, ok := n.(*ast.IfStmt)
+		if !ok || bad != "" {
+			return true
+		}
+		lk := map[types.Object]*ast.IndexExpr{}
+		for k, v := range lookups {
+			lk[k] = v
+		}
+		if ifs.Init != nil {
+			if o, ix := commaOkLookup(d, ifs.Init); o != nil {
+				lk[o] = ix
+			}
+		}
+		facts := append(condMembers(d, ifs.Cond, true, lk, "if"), condMembers(d, ifs.Cond, false, lk, "if")...)
+		for _, f := range facts {
+			if f.m == nil {
+				continue
+			}
+			for _, in := range inserts {
+				if in.m == f.m && !sameKey(in.key, f.key) {
+					// does this decision change what the iteration does (skip or branch with effects)?
+					bad = fmt.Sprintf("the test of %s[%s] depends on entries the same loop stores under %s[%s]", f.mexpr, f.key, f.mexpr, in.key)
+					pos = ifs.Pos()
+				}
+			}
+		}
+		return true
+	})
+	if bad != "" {
+		c.bad(R, subj+"#carried-state", c.P.Pos(pos), fmt.Sprintf("%s: %s — what an iteration does depends on which map entries were visited before it, and Go randomises that order, so two runs on the same document give different output", subj, bad))
+	}
 }
